@@ -373,7 +373,7 @@ def gen_op(rng, ai, pool, ctx):
         elif name == 'getblade':
             op['params'] = [pool.name[rng.choice(pool.canon)]]
         elif name == 'map':
-            op['params'] = rng.choice([[], [2]])
+            op['params'] = rng.choice([[], [2], ['tosym'], ['tonum']])
         elif name == 'index':
             op['params'] = [rng.randrange(3)]
         return op
@@ -484,6 +484,25 @@ TWIN_POLICIES += RDV_POLICIES * 2
 
 def _has_prev(op):
     return any(a.get('k') == 'prev' for a in op.get('args', []))
+
+
+DERIVING_METHODS = ('map', 'index', 'grade', 'filter', 'asfullmv', 'dual', 'undual', 'getblade', 'normalized',
+                    'exp', 'pow', 'norm')
+
+
+def _derivable(o):
+    """Operations whose returned multivector a later operation of the same caller may take as an operand
+    (copy/pickle are left out: whether they succeed depends on what hangs off the algebra)."""
+    if _has_prev(o) or any(a.get('k') in ('list', 'other') for a in o.get('args', [])):
+        return False
+    if o['kind'] in ('bin', 'un', 'reg', 'symcall'):
+        return True
+    return o['kind'] == 'meth' and o.get('op') in DERIVING_METHODS
+
+
+def _copy_recipe(r):
+    import copy
+    return copy.deepcopy(r)
 
 
 def twin_of(rng, prog, algebras, pools):
@@ -613,14 +632,41 @@ def gen_trace(rng, tier='quick', crit_names=(), arm=None, targets=()):
             ai = rng.randrange(len(algebras)) if rng.random() < 0.7 else 0
             op = gen_op(rng, ai, pools[ai], ctx)
             # an operand may be the multivector returned by an earlier operation of this caller
-            earlier = [j for j, o in enumerate(prog) if o['alg'] == ai and o['kind'] in ('bin', 'un')
-                       and not _has_prev(o) and not any(a.get('k') in ('list', 'other') for a in o.get('args', []))]
-            if earlier and op['kind'] in ('bin', 'un', 'meth', 'reg') and rng.random() < p_chain:
+            earlier = [j for j, o in enumerate(prog) if o['alg'] == ai and _derivable(o)]
+            if earlier and op['kind'] in ('bin', 'un', 'meth', 'reg', 'symcall') and op.get('args') and rng.random() < p_chain:
                 j = rng.choice(earlier)
                 slot = rng.randrange(len(op['args']))
+                if op['kind'] == 'symcall':
+                    op['call']['mode'] = rng.choice(['autopos', 'autokw'])
+                    op['call']['vals'] = (op['call']['vals'] + [gen_value(rng, ctx['valkind']) for _ in range(8)])[:8]
                 if op['args'][slot].get('k') not in ('num',):
                     op['args'][slot] = {'k': 'prev', 'i': j, 'op': prog[j]}
             prog.append(op)
+            a0 = op['args'][0] if op.get('args') else {}
+            if op['kind'] == 'symcall' and a0.get('k') in ('sh', 'kv', 'fkv', 'map', 'sym') and rng.random() < 0.35:
+                # derive a new multivector from one that has been used (its cached properties are filled),
+                # then use the derived one: call it, or operate on it
+                how = rng.choice(['map', 'map', 'map', 'grade', 'filter', 'asfullmv', 'dual', 'pow'])
+                dop = {'alg': ai, 'kind': 'meth', 'op': how, 'args': [_copy_recipe(a0)]}
+                if how == 'map':
+                    dop['params'] = rng.choice([[], [2], ['tonum'], ['tosym']])
+                elif how == 'grade':
+                    dop['params'] = sorted(rng.sample(range(pools[ai].d + 1), rng.randint(1, min(2, pools[ai].d + 1))))
+                elif how == 'dual':
+                    dop['params'] = []
+                elif how == 'pow':
+                    dop['params'] = [2]
+                elif how == 'asfullmv':
+                    dop['params'] = []
+                prog.append(dop)
+                j = len(prog) - 1
+                use = {'alg': ai, 'kind': 'symcall', 'args': [{'k': 'prev', 'i': j, 'op': prog[j]}],
+                       'call': {'mode': rng.choice(['autopos', 'autokw']),
+                                'vals': [gen_value(rng, ctx['valkind']) for _ in range(8)]}}
+                if rng.random() < 0.3:
+                    use = {'alg': ai, 'kind': 'bin', 'op': rng.choice(ctx['binops']), 'form': 'method',
+                           'args': [{'k': 'prev', 'i': j, 'op': prog[j]}, gen_operand(rng, pools[ai], ai, ctx)]}
+                prog.append(use)
         callers.append(prog)
 
     # the same coefficient expressions on the same key set in another key order, called later (a different
@@ -696,6 +742,20 @@ def gen_trace(rng, tier='quick', crit_names=(), arm=None, targets=()):
         for ai, a in enumerate(algebras):
             if a.get('wrapper') and rng.random() < 0.3:
                 wrapper_faults.append({'alg': ai, 'when': rng.choice(['apply', 'call']), 'at': rng.randint(1, 6)})
+    if fault_arm:
+        # after a failing call: the same call again, and an earlier call again ("regardless of which failing
+        # calls ran before"); appended at the end so that no operation index moves
+        for f in list(faults):
+            prog = callers[f['caller']]
+            if rng.random() < 0.5 and len(prog) < 24:
+                prog.append(_copy.deepcopy(prog[f['op']]))
+                if f['op'] > 0:
+                    prog.append(_copy.deepcopy(prog[rng.randrange(f['op'])]))
+        if wrapper_faults:
+            for prog in callers:
+                for _ in range(2):
+                    if prog and len(prog) < 24 and rng.random() < 0.7:
+                        prog.append(_copy.deepcopy(prog[rng.randrange(len(prog))]))
     world = dict(algebras=algebras, registered=registered, shared=shared,
                  warn_as_error=fault_arm and rng.random() < 0.1,
                  wrapper_faults=wrapper_faults,
